@@ -446,6 +446,9 @@ func NewStack(cfg Config) (*Stack, error) {
 	if root == "" {
 		root = "http://site.test"
 	}
+	if root == "-" {
+		root = "" // explicitly no RootURL (links and the OAuth2 redirect_uri are then site-relative)
+	}
 	ab.Config.Paths.RootURL = root
 	ab.Config.Paths.AuthLoginOK = "/ok/login"
 	ab.Config.Paths.ConfirmOK = "/ok/confirm"
